@@ -192,3 +192,21 @@ pub fn unrl(v: &Value) -> Vec<u8> {
     }
     out
 }
+
+/// Well-known IPv4 addresses (one per special range and the edges of each) for systematic grids.
+pub const KNOWN_V4: [[u8; 4]; 24] = [
+    [0, 0, 0, 0], [0, 0, 0, 1], [10, 0, 0, 1], [10, 255, 255, 255], [100, 64, 0, 1], [127, 0, 0, 1], [127, 255, 255, 255], [128, 0, 0, 0],
+    [169, 254, 0, 1], [169, 254, 169, 254], [172, 16, 0, 1], [172, 31, 255, 255], [192, 0, 2, 1], [192, 168, 0, 1], [192, 168, 255, 255], [198, 18, 0, 1],
+    [198, 51, 100, 7], [203, 0, 113, 9], [224, 0, 0, 1], [239, 255, 255, 255], [240, 0, 0, 1], [255, 255, 255, 254], [255, 255, 255, 255], [8, 8, 8, 8],
+];
+
+/// Well-known IPv6 addresses (groups).
+pub const KNOWN_V6: [[u16; 8]; 18] = [
+    [0, 0, 0, 0, 0, 0, 0, 0], [0, 0, 0, 0, 0, 0, 0, 1], [0, 0, 0, 0, 0, 0xffff, 0x7f00, 1], [0, 0, 0, 0, 0, 0xffff, 0xc000, 0x0201], [0, 0, 0, 0, 0, 0, 0xc000, 0x0201],
+    [0x64, 0xff9b, 0, 0, 0, 0, 0xc000, 0x0221], [0x64, 0xff9b, 1, 0, 0, 0, 0xc000, 0x0221], [0x2001, 0xdb8, 0, 0, 0, 0, 0, 1], [0x2001, 0, 0, 0, 0, 0, 0, 1], [0x2002, 0xc000, 0x0201, 0, 0, 0, 0, 1],
+    [0xfe80, 0, 0, 0, 0, 0, 0, 1], [0xfe80, 4, 0, 0, 0, 0, 0, 1], [0xfec0, 0, 0, 0, 0, 0, 0, 1], [0xfc00, 0, 0, 0, 0, 0, 0, 1], [0xfd12, 0x3456, 0x789a, 1, 0, 0, 0, 1],
+    [0xff02, 0, 0, 0, 0, 0, 0, 1], [0xff0e, 0, 0, 0, 0, 0, 0, 0xfb], [0xffff, 0xffff, 0xffff, 0xffff, 0xffff, 0xffff, 0xffff, 0xffff],
+];
+
+/// Well-known ports.
+pub const KNOWN_PORTS: [u16; 14] = [0, 1, 22, 25, 53, 80, 443, 1023, 1024, 8080, 32767, 32768, 49152, 65535];
